@@ -2,6 +2,7 @@ package compose
 
 import (
 	"context"
+	"errors"
 	"sync"
 
 	"github.com/cloudwego/eino/callbacks"
@@ -15,6 +16,7 @@ type c10Ev struct {
 }
 
 var c10Mu sync.Mutex
+var c10Err = errors.New("c10 branch failure")
 
 type c10Rec struct {
 	id       string
@@ -307,4 +309,196 @@ func VerifC10PartialStream() {
 	if withHandler {
 		vassert(seen == "ab", "the handler receives the payload the unit produced")
 	}
+}
+
+type c10Store struct{ m map[string][]byte }
+
+func (s *c10Store) Get(ctx context.Context, id string) ([]byte, bool, error) {
+	b, ok := s.m[id]
+	return b, ok, nil
+}
+func (s *c10Store) Set(ctx context.Context, id string, b []byte) error {
+	s.m[id] = append([]byte{}, b...)
+	return nil
+}
+
+// Runs that leave the run loop in its entry step (a failing START branch, a START branch straight to END, an
+// interrupt-before on the first node, and the resumed run): the graph-level handler still hears exactly one start and
+// one end per run, in every paradigm.
+func VerifC10EarlyExit() {
+	ctx := context.Background()
+	vcfg("fifo", 1)
+	vcfg("selectfirst", 1)
+	var evs []c10Ev
+	kind := vchoose("exit", 4) // 0 normal, 1 START branch fails, 2 START branch -> END, 3 interrupt before the first node
+	g := NewGraph[map[string]any, map[string]any]()
+	_ = g.AddLambdaNode("a", InvokableLambda(func(ctx context.Context, in map[string]any) (map[string]any, error) {
+		return map[string]any{"a": 1}, nil
+	}), WithNodeName("A"))
+	_ = g.AddBranch(START, NewGraphBranch(func(ctx context.Context, in map[string]any) (string, error) {
+		switch kind {
+		case 1:
+			return "", c10Err
+		case 2:
+			return END, nil
+		}
+		return "a", nil
+	}, map[string]bool{"a": true, END: true}))
+	_ = g.AddEdge("a", END)
+	copts := []GraphCompileOption{WithGraphName("G")}
+	store := &c10Store{m: map[string][]byte{}}
+	if kind == 3 {
+		copts = append(copts, WithCheckPointStore(store), WithInterruptBeforeNodes([]string{"a"}))
+	}
+	r, err := g.Compile(ctx, copts...)
+	vassert(err == nil, "graph compiles")
+	mode := vchoose("paradigm", 3)
+	run := func(tag string) error {
+		opts := []Option{WithCallbacks(&c10Rec{id: tag, evs: &evs})}
+		if kind == 3 {
+			opts = append(opts, WithCheckPointID("c10"))
+		}
+		in := map[string]any{"in": 1}
+		switch mode {
+		case 0:
+			_, e := r.Invoke(ctx, in, opts...)
+			return e
+		case 1:
+			sr, e := r.Stream(ctx, in, opts...)
+			if e != nil {
+				return e
+			}
+			for i := 0; i < 4; i++ {
+				if _, e := sr.Recv(); e != nil {
+					break
+				}
+			}
+			sr.Close()
+			return nil
+		default:
+			sr, e := r.Transform(ctx, schema.StreamReaderFromArray([]map[string]any{in}), opts...)
+			if e != nil {
+				return e
+			}
+			for i := 0; i < 4; i++ {
+				if _, e := sr.Recv(); e != nil {
+					break
+				}
+			}
+			sr.Close()
+			return nil
+		}
+	}
+	e1 := run("h1")
+	vquiesce()
+	switch kind {
+	case 0, 2:
+		vassert(e1 == nil, "run succeeds")
+	case 1:
+		vassert(e1 != nil, "a failing START branch fails the run")
+	case 3:
+		_, isInt := ExtractInterruptInfo(e1)
+		vassert(isInt, "the first node is interrupted before it starts")
+	}
+	vassert(c10Count(evs, "h1", "start", "G") == 1, "graph-level handler: exactly one start for the run, however early the run loop is left")
+	vassert(c10Count(evs, "h1", "end", "G") == 1, "graph-level handler: exactly one end (or error) for the run, however early the run loop is left")
+	wantA := 0
+	if kind == 0 {
+		wantA = 1
+	}
+	vassert(c10Count(evs, "h1", "start", "A") == wantA && c10Count(evs, "h1", "end", "A") == wantA, "node-level events only for a node that ran")
+	if kind == 3 {
+		e2 := run("h2")
+		vquiesce()
+		vassert(e2 == nil, "the resumed run succeeds")
+		vassert(c10Count(evs, "h2", "start", "G") == 1 && c10Count(evs, "h2", "end", "G") == 1, "resumed run: exactly one graph start and end")
+		vassert(c10Count(evs, "h2", "start", "A") == 1 && c10Count(evs, "h2", "end", "A") == 1, "resumed run: exactly one start and end for the node")
+		vassert(c10Count(evs, "h1", "start", "G") == 1 && c10Count(evs, "h1", "start", "A") == 0, "the first call's handler hears nothing of the second call")
+	}
+}
+
+// One callbacks option designated to several paths (top-level and nested, in any order, by one or two Designate
+// calls): the handler fires exactly once per start/end for each designated node and for no other.
+func VerifC10MultiPath() {
+	ctx := context.Background()
+	vcfg("fifo", 1)
+	vcfg("selectfirst", 1)
+	vcfgAppendCapIn("extractOption")
+	var evs []c10Ev
+	body := func(key string) *Lambda {
+		return InvokableLambda(func(ctx context.Context, in map[string]any) (map[string]any, error) {
+			return map[string]any{key: 1}, nil
+		})
+	}
+	sub := NewGraph[map[string]any, map[string]any]()
+	_ = sub.AddLambdaNode("x", body("x"), WithNodeName("X"))
+	_ = sub.AddLambdaNode("y", body("y"), WithNodeName("Y"))
+	_ = sub.AddEdge(START, "x")
+	_ = sub.AddEdge("x", "y")
+	_ = sub.AddEdge("y", END)
+	g := NewGraph[map[string]any, map[string]any]()
+	_ = g.AddLambdaNode("a", body("a"), WithNodeName("A"))
+	_ = g.AddLambdaNode("b", body("b"), WithNodeName("B"))
+	_ = g.AddGraphNode("sub", sub, WithNodeName("SUB"))
+	_ = g.AddEdge(START, "a")
+	_ = g.AddEdge("a", "sub")
+	_ = g.AddEdge("sub", "b")
+	_ = g.AddEdge("b", END)
+	r, err := g.Compile(ctx, WithGraphName("G"))
+	vassert(err == nil, "graph compiles")
+	// candidate designations: a, b, sub/x, sub/y; a subset of 2-3 of them in any order
+	cands := []*NodePath{NewNodePath("a"), NewNodePath("b"), NewNodePath("sub", "x"), NewNodePath("sub", "y")}
+	names := []string{"A", "B", "X", "Y"}
+	var sel []int
+	used := map[int]bool{}
+	n := 2 + vchoose("n", 2)
+	for i := 0; i < n; i++ {
+		k := vchoose("path", len(cands))
+		if used[k] {
+			return
+		}
+		used[k] = true
+		sel = append(sel, k)
+	}
+	opt := WithCallbacks(&c10Rec{id: "h", evs: &evs})
+	if vchoose("split", 2) == 1 {
+		opt = opt.DesignateNodeWithPath(cands[sel[0]])
+		var rest []*NodePath
+		for _, k := range sel[1:] {
+			rest = append(rest, cands[k])
+		}
+		opt = opt.DesignateNodeWithPath(rest...)
+	} else {
+		var all []*NodePath
+		for _, k := range sel {
+			all = append(all, cands[k])
+		}
+		opt = opt.DesignateNodeWithPath(all...)
+	}
+	var rerr error
+	if vchoose("stream", 2) == 1 {
+		sr, e := r.Stream(ctx, map[string]any{"in": 1}, opt)
+		rerr = e
+		if e == nil {
+			for i := 0; i < 4; i++ {
+				if _, e := sr.Recv(); e != nil {
+					break
+				}
+			}
+			sr.Close()
+		}
+	} else {
+		_, rerr = r.Invoke(ctx, map[string]any{"in": 1}, opt)
+	}
+	vquiesce()
+	vassert(rerr == nil, "run with a multi-path designation succeeds")
+	for k, nm := range names {
+		want := 0
+		if used[k] {
+			want = 1
+		}
+		vassert(c10Count(evs, "h", "start", nm) == want && c10Count(evs, "h", "end", nm) == want,
+			"a handler designated to several paths fires exactly once per start/end for each designated node and never for another: "+nm)
+	}
+	vassert(c10Count(evs, "h", "start", "G") == 0 && c10Count(evs, "h", "start", "SUB") == 0, "and not for the graphs")
 }
